@@ -328,3 +328,32 @@ func c19Time(side string) time.Time {
 	}
 	return t // Local
 }
+
+// VerifC19Str: the string family. Operands are byte-array strings of every length pair up to maxLen with fully symbolic
+// bytes (also behind a pointer / an interface on the left side); the outcome must be Go's lexicographic byte order.
+func VerifC19Str(maxLen int) {
+	la := verif.Choice("left-len", maxLen+1)
+	lb := verif.Choice("right-len", maxLen+1)
+	a := string(verif.Bytes("L", la))
+	b := string(verif.Bytes("R", lb))
+	var l reflect.Value
+	switch verif.Choice("left-shape", 3) {
+	case 0:
+		l = reflect.ValueOf(a)
+	case 1:
+		l = reflect.ValueOf(&a)
+	default:
+		var i interface{} = a
+		l = reflect.ValueOf(&i).Elem()
+	}
+	r := reflect.ValueOf(b)
+	verif.Reach("C19:string")
+	s := c19Eval("string", l, r)
+	m := c19Eval("string:swapped", r, l)
+	c19Consistency("string", s, m, true)
+	if s.ok {
+		verif.Assert("C19:string:eq-by-value", verif.Iff(s.eq, a == b))
+		verif.Assert("C19:string:lt-by-value", verif.Iff(s.lt, a < b))
+		verif.Assert("C19:string:gt-by-value", verif.Iff(s.gt, a > b))
+	}
+}
